@@ -1166,6 +1166,9 @@ class World:
         else:
             ev = [e for e in ready if e[1] is self.last]
             ev += [e for e in ready if e[1] is not self.last]
+            # sleepers in the order of their wake-up times (stable): the default choice lets virtual time pass as a clock
+            # would; the schedule can still pick any sleeper first (sleeps are lower bounds: a slow process)
+            sleeping.sort(key=lambda e: getattr(e[1], "wake_time", 0.0))
         for jid, r in self.slurm.items():
             if r["state"] == "PENDING":
                 ev.append(("start", jid))
@@ -1276,6 +1279,19 @@ class World:
         if rc is None:
             rc = self.exit_codes.get(job.name, 0)
         job.returncode = rc
+        for f in self.faults:
+            if f.get("kind") == "unreadable_output" and f.get("job") == job.name and not f.get("done") and job.env.get("JADE_RUNTIME_OUTPUT"):
+                # the job leaves a dangling symbolic link in its output directory: JADE's size scan of the directory raises
+                # when the runner records the completion (an I/O error on the node at that point)
+                f["done"] = True
+                d = os.path.join(job.env["JADE_RUNTIME_OUTPUT"], "job-outputs", job.name)
+                os.makedirs(d, exist_ok=True)
+                try:
+                    os.symlink(os.path.join(d, "gone.tmp"), os.path.join(d, "latest"))
+                except FileExistsError:
+                    pass
+                self.fault_hits.append(("unreadable_output", job.name))
+                self.note("fault", what="unreadable_output", job=job.name, batch=job.batch)
         if job.evfh is not None:
             job._log_event("ended")
             job.evfh.close()
@@ -1289,7 +1305,10 @@ class World:
             rec["state"] = rec.get("death_state", "NODE_FAIL")
         else:
             rec["state"] = "COMPLETED" if vt.exit == 0 else "FAILED"
-        self.note("end_batch", id=jid, batch=rec["batch"], exit=vt.exit, exc=vt.exc, state=rec["state"])
+        extra = {}
+        if vt.exc and not vt.dead and rec.get("outdir"):
+            extra["rows_on_disk"] = sorted(read_result_names(rec["outdir"]))  # the runner died by itself: what it had recorded
+        self.note("end_batch", id=jid, batch=rec["batch"], exit=vt.exit, exc=vt.exc, state=rec["state"], **extra)
 
     def kill_batch(self, jid, state="NODE_FAIL"):
         rec = self.slurm[jid]
